@@ -301,6 +301,44 @@ def nondet_scan(repo, funcs):
     return sorted(set(out))
 
 
+# PROV-DM / PROV-N / PROV-JSON names, written out from the specifications (not read from the library)
+SPEC_KINDS = {
+    "Entity": "entity", "Activity": "activity", "Agent": "agent", "Generation": "wasGeneratedBy", "Usage": "used",
+    "Communication": "wasInformedBy", "Start": "wasStartedBy", "End": "wasEndedBy", "Invalidation": "wasInvalidatedBy",
+    "Derivation": "wasDerivedFrom", "Attribution": "wasAttributedTo", "Association": "wasAssociatedWith",
+    "Delegation": "actedOnBehalfOf", "Influence": "wasInfluencedBy", "Specialization": "specializationOf",
+    "Alternate": "alternateOf", "Membership": "hadMember", "Mention": "mentionOf", "Bundle": "bundle",
+}
+SPEC_FORMAL = {"entity", "activity", "agent", "trigger", "starter", "ender", "informed", "informant", "generatedEntity", "usedEntity",
+               "generation", "usage", "plan", "delegate", "responsible", "influencee", "influencer", "specificEntity", "generalEntity",
+               "alternate1", "alternate2", "collection", "bundle", "time", "startTime", "endTime"}
+
+
+def tables_scan(repo):
+    """the library's name tables (dumped from the real prov.constants by CPython) against the specifications' names"""
+    g = repo.consts["prov.constants"]["globals"]
+    out = []
+    nm = {a.get("local"): b.get("v") for a, b in g["PROV_N_MAP"]["v"]}
+    ok = nm == SPEC_KINDS and all(a.get("nsuri") == "http://www.w3.org/ns/prov#" for a, b in g["PROV_N_MAP"]["v"])
+    out.append(("PROV_N_MAP", ok, sorted(set(nm.items()) ^ set(SPEC_KINDS.items()), key=str)))
+    def pairs(tab):
+        # (local name of the qualified name, text) whichever side the qualified name is on
+        out_ = set()
+        ok_ns = True
+        for a, b in tab:
+            q, t = (a, b) if a.get("k") == "QN" else (b, a)
+            out_.add((q.get("local"), t.get("v")))
+            ok_ns = ok_ns and q.get("nsuri") == "http://www.w3.org/ns/prov#"
+        return out_, ok_ns
+    want = {(x, "prov:" + x) for x in SPEC_FORMAL}
+    for tname in ("PROV_ATTRIBUTES_ID_MAP", "PROV_ID_ATTRIBUTES_MAP"):
+        got, ok_ns = pairs(g[tname]["v"])
+        out.append((tname, got == want and ok_ns, sorted(got ^ want, key=str)))
+    got, ok_ns = pairs(g["PROV_RECORD_IDS_MAP"]["v"])
+    out.append(("PROV_RECORD_IDS_MAP", got == set(SPEC_KINDS.items()) and ok_ns, sorted(got ^ set(SPEC_KINDS.items()), key=str)))
+    return out
+
+
 def run_scans(repo, spec):
     """spec = {"writers": {field: [allowed qualnames]}, "leaks": {field: [[qualname, how-prefix], ...]}}
     -> list of dict(name, ok, detail)"""
@@ -332,6 +370,12 @@ def run_scans(repo, spec):
         extra_nd = [x for x in nd if (x[0], x[2]) not in allowed_nd]
         res.append({"name": "scan:export-determinism", "ok": not extra_nd, "found": nd,
                     "detail": "calls of id/hash/random/time/uuid in export-reachable code: %s%s" % (nd, ("; NOT among the recorded ones: %s" % extra_nd) if extra_nd else "")})
+    if spec.get("spec_tables"):
+        if repo.consts is None:
+            repo._dump_consts()
+        for name, ok, diff in tables_scan(repo):
+            res.append({"name": "scan:spec-tables:%s" % name, "ok": ok, "found": diff,
+                        "detail": "%s of prov.constants %s the names of PROV-DM / PROV-N / PROV-JSON%s" % (name, "equals" if ok else "differs from", ("; differences: %s" % diff) if diff else "")})
     if spec.get("fresh_stores"):
         fs = spec["fresh_stores"]
         st = stores_of(repo, fs["fields"], set(fs.get("nested", [])))
